@@ -170,6 +170,15 @@ func (m DocComposite) deleteWithPrefix(ctx context.Context, key keys.DataStoreKe
 		return err
 	}
 
+	// The keys are collected first and written after the iterator has been closed: some stores
+	// (corekv/memory) do not allow writes while an iterator of the same transaction is open.
+	type entry struct {
+		key      keys.DataStoreKey
+		value    []byte
+		hasValue bool
+	}
+	var entries []entry
+
 	for {
 		hasNext, err := iter.Next()
 		if err != nil {
@@ -184,23 +193,36 @@ func (m DocComposite) deleteWithPrefix(ctx context.Context, key keys.DataStoreKe
 			return errors.Join(err, iter.Close())
 		}
 
+		e := entry{key: dsKey}
 		if dsKey.InstanceType == keys.ValueKey {
 			value, err := iter.Value()
 			if err != nil {
 				return errors.Join(err, iter.Close())
 			}
+			e.value = append([]byte{}, value...)
+			e.hasValue = true
+		}
+		entries = append(entries, e)
+	}
 
-			err = m.store.Set(ctx, dsKey.WithDeletedFlag().Bytes(), value)
+	err = iter.Close()
+	if err != nil {
+		return err
+	}
+
+	for _, e := range entries {
+		if e.hasValue {
+			err = m.store.Set(ctx, e.key.WithDeletedFlag().Bytes(), e.value)
 			if err != nil {
-				return errors.Join(err, iter.Close())
+				return err
 			}
 		}
 
-		err = m.store.Delete(ctx, dsKey.Bytes())
+		err = m.store.Delete(ctx, e.key.Bytes())
 		if err != nil {
-			return errors.Join(err, iter.Close())
+			return err
 		}
 	}
 
-	return iter.Close()
+	return nil
 }
